@@ -392,9 +392,14 @@ func (p *provider) updateStatus(
 
 	modRS.Status.ActiveIn = x.IfThenElse(len(modRS.Status.ActiveIn) == 0, "0/0", modRS.Status.ActiveIn)
 
+	// the status is written by others as well: a value without the second part counts as 0 there
 	usedBy := strings.Split(modRS.Status.ActiveIn, "/")
 	loadedBy, _ := strconv.Atoi(usedBy[0])
-	matchedBy, _ := strconv.Atoi(usedBy[1])
+	matchedBy := 0
+
+	if len(usedBy) > 1 {
+		matchedBy, _ = strconv.Atoi(usedBy[1])
+	}
 
 	modRS.Status.ActiveIn = fmt.Sprintf("%d/%d", loadedBy+usageIncrement, matchedBy+matchIncrement)
 
